@@ -4,7 +4,7 @@ import struct
 
 from ..absint import Interp
 from ..absstate import State
-from ..absval import ABytes, UNK, ABuiltin, AObj
+from ..absval import ABytes, UNK, ABuiltin, AObj, Unknown
 from ..rules_g import (Row, run_row, ObsRow, run_obs, I, S, Mult, Pred, OBJ, B,
                        INT, LEN, INJECT)
 from ..rules_v import check_verify
@@ -346,6 +346,73 @@ def s2v_sequence_rows(check, repo):
              expected="RFC 5297 2.4: derive() does not alter the accumulator D or the last string (calling it again, or continuing with update(), is well defined)")
 
 
+def scrypt_composition_rows(check, repo):
+    """RFC 7914 6 as a composition: B = PBKDF2(P, S, 1, p*128*r); B_i = ROMix(r, B_i, N) for each of the p blocks;
+    DK = PBKDF2(P, B, 1, dkLen) - with PBKDF2 and the native ROMix replaced by fixed tagged functions, for several
+    (r, p), key lengths and numbers of keys: which slice reaches which ROMix call, with which length, N and core, in
+    which order the results are joined, and how DK is cut into keys."""
+    import hashlib
+    from ..absint import Interp
+    from ..absstate import State
+    mod = repo.module(KDF)
+    fn = repo.func(mod, "scrypt")
+
+    def expand(tag, n):
+        out, c = b"", 0
+        while len(out) < n:
+            out += hashlib.sha256(tag + c.to_bytes(4, "big")).digest()
+            c += 1
+        return out[:n]
+
+    def pb(pw, salt, n):
+        return expand(b"PBKDF2|" + bytes(pw) + b"|" + bytes(salt) + b"|", n)
+
+    def romix(block, ln, N):
+        return expand(b"ROMIX|%d|%d|" % (ln, N) + bytes(block), ln)
+    wrong = []
+    rows = [(1, 1, 16, 32, 1), (8, 1, 1024, 64, 1), (1, 3, 4, 16, 1), (2, 4, 8, 16, 3), (3, 2, 2, 10, 5), (8, 16, 16, 32, 2), (1, 1, 2, 1, 1)]
+    for (r, p_, N, klen, nk) in rows:
+        calls = []
+
+        def m_pbkdf2(i, a, kw, st, node):
+            pw, salt, dk, cnt = (list(a) + [None] * 4)[:4]
+            if not isinstance(pw, (bytes, bytearray)) or not isinstance(salt, (bytes, bytearray)) or not isinstance(dk, int):
+                return ABytes(None)
+            if cnt != 1 or kw.get("prf") is None and len(a) < 5:
+                return b"WRONG-PBKDF2-PARAMETERS"
+            return pb(pw, salt, dk)
+
+        def f_romix(i, a, kw, st, node, calls=calls):
+            din, dout, ln, n, core = (list(a) + [None] * 5)[:5]
+            calls.append((len(din) if isinstance(din, (bytes, bytearray)) else None, ln, n, repr(core)))
+            if not isinstance(din, (bytes, bytearray)) or not isinstance(dout, bytearray) or not isinstance(ln, int) or not isinstance(n, int) or len(dout) < ln:
+                return Unknown("int")
+            dout[:ln] = romix(bytes(din), ln, n)
+            return 0
+        it = Interp(repo, max_depth=3, extra_models={KDF + ".PBKDF2": m_pbkdf2,
+                                                     "Crypto.Util._raw_api.create_string_buffer": lambda i, a, kw, st, node: bytearray(a[0]) if a and isinstance(a[0], int) else UNK,
+                                                     "Crypto.Util._raw_api.get_raw_buffer": lambda i, a, kw, st, node: bytes(a[0]) if a and isinstance(a[0], (bytes, bytearray)) else UNK})
+        it.ffi_models = {"scryptROMix": f_romix}
+        it.for_limit = 100
+        pw, salt = b"pass phrase", b"NaCl salt"
+        res = it.run(mod, fn, {"password": pw, "salt": salt, "key_len": klen, "N": N, "r": r, "p": p_, "num_keys": nk})
+        B = pb(pw, salt, p_ * 128 * r)
+        Bp = b"".join(romix(B[j * 128 * r:(j + 1) * 128 * r], 128 * r, N) for j in range(p_))
+        dk = pb(pw, Bp, klen * nk)
+        want = dk if nk == 1 else [dk[j * klen:(j + 1) * klen] for j in range(nk)]
+        rets = res.returns()
+        got = rets[0].value if len(rets) == 1 and not res.raises() else ("exits", len(rets), res.raise_classes())
+        if isinstance(got, (list, tuple)) and nk > 1 and not (got and got[0] == "exits"):
+            got = [bytes(x) if isinstance(x, (bytes, bytearray)) else x for x in got]
+        elif isinstance(got, bytearray):
+            got = bytes(got)
+        if got != want:
+            wrong.append("r=%d p=%d N=%d key_len=%d num_keys=%d: %s (ROMix calls: %s)" % (r, p_, N, klen, nk, "result differs from RFC 7914 6" if not (isinstance(got, tuple) and got and got[0] == "exits") else got, calls[:3]))
+    check.ob("K-pw", "K-pw|scrypt.composition", not wrong, mod.path, fn.lineno,
+             extracted=("%d of %d rows differ: " % (len(wrong), len(rows)) + "; ".join(wrong[:3])) if wrong else "%d (r, p, N, key_len, num_keys) rows: block i of the first PBKDF2 output goes through ROMix with length 128 r and the caller's N, results joined in order, DK cut into num_keys keys" % len(rows),
+             expected="RFC 7914 6: B = PBKDF2(P, S, 1, p*128*r), B_i = scryptROMix(r, B_i, N), DK = PBKDF2(P, B, 1, dkLen)")
+
+
 def _hist(h):
     return "[" + ", ".join("derive" if x is None else "update(%d bytes)" % len(x) for x in h) + "]"
 
@@ -506,6 +573,7 @@ def run(check, ctx):
                         expected_locals=("bcrypt_hash2",))
     bcrypt_value_rows(check, repo)
     s2v_sequence_rows(check, repo)
+    scrypt_composition_rows(check, repo)
     # HMAC key preparation is part of PBKDF2/HKDF's specification (RFC 2104)
     from .c03_extra import hmac_rows
     hmac_rows(check, repo, prop="C12")
